@@ -2718,7 +2718,7 @@ fn gen_stacks(rng: &mut Rng, cpu: u16, coherent: bool) -> Case {
 /// (no 64-bit word there) and the memory list — absent, or holding region B only — does not serve
 /// that address: the thread keeps its own memory, in which the frame-pointer chain (and, on 32-bit
 /// CPUs, the last word) is still readable
-fn tail_case(cpu: u16, k: u64, with_list: bool) -> Case {
+fn tail_case(cpu: u16, k: u64, with_list: bool, fp_kind: u8) -> Case {
     let w: u64 = if matches!(cpu, 0 | 5 | 1) { 4 } else { 8 };
     let (a, b, size) = (0x10000u64, 0x20000u64, 0x100u64);
     let os = if cpu == 5 { 0x8102 } else { LINUX };
@@ -2729,6 +2729,9 @@ fn tail_case(cpu: u16, k: u64, with_list: bool) -> Case {
         (0x20 + w, word(0x40_0310, w)),
         (0x40, word(0, w)),
         (0x40 + w, word(0x40_0420, w)),
+        // a frame record in the last two words (caller's frame pointer 0, return address): its caller
+        // frame has sp = end of the region, above every stack pointer inside it
+        (size - 2 * w, word(0, w)),
         (size - w, word(0x40_0530, w)),
     ];
     patches.sort();
@@ -2737,7 +2740,12 @@ fn tail_case(cpu: u16, k: u64, with_list: bool) -> Case {
     if with_list {
         c.ml = vec![MlSection::L(vec![LItem::Pool(1)])];
     }
-    c.th = Some(vec![Thread { id: 1, ctx: Ctx::R { ip: 0x40_0100, sp: a + size - k, fp: a + 0x20 }, stack: Some((a, Own::Pool(0))) }]);
+    let fp = match fp_kind {
+        0 => a + 0x20,
+        1 => a + size - 2 * w,
+        _ => 0,
+    };
+    c.th = Some(vec![Thread { id: 1, ctx: Ctx::R { ip: 0x40_0100, sp: a + size - k, fp }, stack: Some((a, Own::Pool(0))) }]);
     c
 }
 
@@ -2884,7 +2892,15 @@ impl Engine for Index {
         for cpu in [0u16, 9, 12, 5, 1, 0x8003] {
             for k in 0..=9u64 {
                 for with_list in [false, true] {
-                    emit(tail_case(cpu, k, with_list).line());
+                    for fp_kind in 0..3u8 {
+                        emit(tail_case(cpu, k, with_list, fp_kind).line());
+                        if cpu == 5 {
+                            // ARM frame pointers are followed on iOS only: the same case on Linux scans
+                            let mut c = tail_case(cpu, k, with_list, fp_kind);
+                            c.os = LINUX;
+                            emit(c.line());
+                        }
+                    }
                 }
             }
         }
